@@ -89,7 +89,7 @@ def _root_.TelSpec.Position.flags : Position → Flags
   | .negHead => ⟨false, true, false⟩          -- `not p :- …` is classified as a constraint; the literal resets `__head`
   | .negHeadBody => ⟨false, true, false⟩
   | .negDisjElem => ⟨false, false, false⟩     -- a negative literal inside a disjunction: not a constraint
-  | .external => ⟨false, false, false⟩
+  | .external => ⟨true, false, false⟩            -- `visit_External` visits the atom as a head
   | .externalBody => ⟨false, false, false⟩
   | .showBody => ⟨false, false, false⟩
   | .weakBody => ⟨false, false, false⟩
